@@ -284,3 +284,27 @@ func debugContracts(w *World, names []string) {
 		}
 	}
 }
+
+func debugLoops(w *World, names []string) {
+	br := newBoundsRun(w)
+	for _, n := range names {
+		fn := w.Func(n)
+		if fn == nil {
+			fmt.Println("unresolved", n)
+			continue
+		}
+		p := br.prover(fn)
+		for _, l := range naturalLoops(fn) {
+			arg, notes := p.findLoopArg(l)
+			fmt.Printf("loop head b%d %s latches %d body %d: %+v %v\n", l.head.Index, w.Pos(loopPos(w, l)), len(l.latches), len(l.body), arg.kind+" "+arg.detail, notes)
+			for _, f := range p.stayFacts(l) {
+				fmt.Println("    stay:", p.linStr(f.e), f.ne)
+			}
+			for _, in := range l.head.Instrs {
+				if ph, ok := in.(*ssa.Phi); ok {
+					fmt.Println("    phi", ph.Name(), ph.Comment, ph.String())
+				}
+			}
+		}
+	}
+}
